@@ -181,3 +181,12 @@ Theorem C12_empty_key_part_needs_the_guard :
 Proof. exact c12_empty_key_part_needs_the_guard. Qed.
 Print Assumptions C12_empty_key_part_needs_the_guard.
 
+Theorem C12_claims_root_check_needed_for_consistent_states :
+  class_of (validate_issuer_state consistent_state_without_ctr) = COk /\
+  (exists s, i_state (sm_issuer s) = consistent_state_without_ctr /\
+             class_of (verify_smt (g_without 4) s) = CPanic) /\
+  (exists b, i_state (b_issuer b) = consistent_state_without_ctr /\
+             class_of (verify_bjj (g_without 4) b) = CPanic).
+Proof. exact c12_claims_root_check_needed_for_consistent_states. Qed.
+Print Assumptions C12_claims_root_check_needed_for_consistent_states.
+
